@@ -61,7 +61,7 @@ def _expected_nx_edges(V, E):
     return ex
 
 
-def c14_task(arg):
+def _c14_task(arg):
     from vf.common import import_rex
 
     import_rex()
@@ -200,3 +200,16 @@ def c14_task(arg):
             seen.add(sig)
             out["violations"].append((sig, dict(detail=det), dict(src=src)))
     return out
+
+
+
+def c14_task(arg):
+    """an exception raised by the conversion code on a legal input is a violation (the conversion lost everything)"""
+    try:
+        return _c14_task(arg)
+    except Exception as e:  # noqa
+        import traceback as tb
+
+        src = arg["src"]
+        return dict(name=src["name"], instances=0, states=0, transitions=0, traces=0, skipped=None,
+                    violations=[(f"conversion-raised:{type(e).__name__}", dict(exc=repr(e)[:300], tb=tb.format_exc()[-1000:]), dict(src=src))])
